@@ -61,6 +61,8 @@ struct Plan {
     /// where the time limits are configured: 0 = on the request, 1 = on the session the request is made
     /// from, 2 = loose limits on the session, the real ones on the request (which must win)
     limits_on: u8,
+    /// `timeout(Duration::MAX)` is configured although `t_ms` is None
+    t_duration_max: bool,
     drop_after_calls: Option<usize>,
     rereads: usize,
     scripts: Vec<Script>,
@@ -116,6 +118,7 @@ fn gen(g: &mut G, thorough: bool) -> Plan {
         upload: 0,
         think: Vec::new(),
         think_after_end_ms: None,
+        t_duration_max: false,
         limits_on: match g.below(6) {
             0 => 1,
             1 => 2,
@@ -128,7 +131,15 @@ fn gen(g: &mut G, thorough: bool) -> Plan {
     };
     match fam {
         Family::NoFalseTimeout => {
+            // also "no limit" as callers write it: the largest Duration there is
             p.t_ms = Some(*g.pick(&[60_000u64, 120_000, 600_000]));
+            if g.chance(1, 12) {
+                // "no limit" as callers write it: the largest Duration there is.  For the oracle there
+                // is no deadline; the caller passes Duration::MAX
+                p.t_ms = None;
+                p.t_duration_max = true;
+                g.probe("overall-timeout-is-duration-max");
+            }
             p.r_ms = *g.pick(&[30_000u64, 5_000, 90_000]);
             // spread the delivery a little (all waits far below R and T)
             let mut sc = p.body.script.clone();
@@ -146,7 +157,7 @@ fn gen(g: &mut G, thorough: bool) -> Plan {
             if g.chance(1, 4) {
                 p.drop_after_calls = Some(g.usize_below(6));
             }
-            if g.chance(1, 3) {
+            if p.t_ms.is_some() && g.chance(1, 3) {
                 // a slow caller: holds the finished response past the deadline, then reads again
                 p.think_after_end_ms = Some(p.t_ms.unwrap() + g.below(5_000));
                 p.rereads = p.rereads.max(1);
@@ -273,30 +284,31 @@ fn caller(p: &Plan) -> Obs {
         }
         rb.send()
     } else {
+        let t_dur: Option<Duration> = if p.t_duration_max { Some(Duration::MAX) } else { p.t_ms.map(Duration::from_millis) };
         let mut session = attohttpc::Session::new();
         let mut rb = match p.limits_on {
             1 => {
                 session.read_timeout(Duration::from_millis(p.r_ms));
-                if let Some(t) = p.t_ms {
-                    session.timeout(Duration::from_millis(t));
+                if let Some(t) = t_dur {
+                    session.timeout(t);
                 }
                 session.get(&url)
             }
             2 => {
                 session.read_timeout(Duration::from_secs(48 * 3600));
-                if p.t_ms.is_some() {
+                if t_dur.is_some() {
                     session.timeout(Duration::from_secs(48 * 3600));
                 }
                 let mut rb = session.get(&url).read_timeout(Duration::from_millis(p.r_ms));
-                if let Some(t) = p.t_ms {
-                    rb = rb.timeout(Duration::from_millis(t));
+                if let Some(t) = t_dur {
+                    rb = rb.timeout(t);
                 }
                 rb
             }
             _ => {
                 let mut rb = attohttpc::get(&url).read_timeout(Duration::from_millis(p.r_ms));
-                if let Some(t) = p.t_ms {
-                    rb = rb.timeout(Duration::from_millis(t));
+                if let Some(t) = t_dur {
+                    rb = rb.timeout(t);
                 }
                 rb
             }
